@@ -430,11 +430,13 @@ fn degenerate_family(name: &str, dim: usize, n: usize) -> Vec<Vec<u32>> {
         "one-nan" => (0..n).map(|i| { let mut v = lattice_vec(dim, i, 3); if i % 4 == 0 { v[i % dim] = 0x7fc0_0001; } v }).collect(),
         "one-inf" => (0..n).map(|i| { let mut v = lattice_vec(dim, i, 4); if i % 4 == 1 { v[i % dim] = if i % 8 == 1 { 0x7f80_0000 } else { 0xff80_0000 }; } v }).collect(),
         "constant-coordinate" => (0..n).map(|i| { let mut v = lattice_vec(dim, i, 5); v[0] = f(3.0); v }).collect(),
+        // coordinates in {0, +-1} with zeros of either sign (the incremental round overwrites them by their IEEE-equal twins)
+        "signed-zeros" => (0..n).map(|i| (0..dim).map(|j| match (i + 2 * j) % 4 { 0 => f(0.0), 1 => f(-0.0), 2 => f(1.0), _ => f(-1.0) }).collect()).collect(),
         _ => unreachable!(),
     }
 }
 
-pub const FAMILIES: [&str; 12] = ["one-vector", "two-distinct", "three-distinct", "zeros-mixed", "all-zero", "collinear", "ternary", "huge", "subnormal", "one-nan", "one-inf", "constant-coordinate"];
+pub const FAMILIES: [&str; 13] = ["signed-zeros", "one-vector", "two-distinct", "three-distinct", "zeros-mixed", "all-zero", "collinear", "ternary", "huge", "subnormal", "one-nan", "one-inf", "constant-coordinate"];
 
 pub fn c20(tier: Tier) -> i32 {
     let mut report = Report::new("C20", tier, "model_checking");
@@ -452,8 +454,13 @@ pub fn c20(tier: Tier) -> i32 {
                 for seed in 0..seeds {
                     let vecs = degenerate_family(fam, dim, n);
                     let items: Vec<(u32, Vec<u32>)> = vecs.iter().enumerate().map(|(i, v)| (i as u32, v.clone())).collect();
-                    let del: Vec<u32> = (0..n as u32).filter(|i| i % 3 == 0).collect();
-                    let add: Vec<(u32, Vec<u32>)> = del.iter().map(|i| (*i, vecs[(*i as usize + 1) % n].clone())).collect();
+                    let mut del: Vec<u32> = (0..n as u32).filter(|i| i % 3 == 0).collect();
+                    let mut add: Vec<(u32, Vec<u32>)> = del.iter().map(|i| (*i, vecs[(*i as usize + 1) % n].clone())).collect();
+                    if fam == "signed-zeros" {
+                        // overwrite (no deletion first) every second item by the vector that differs only in the sign of its zeros
+                        del.clear();
+                        add = (0..n).step_by(2).map(|i| (i as u32, vecs[i].iter().map(|b| if f32::from_bits(*b) == 0.0 { b ^ 0x8000_0000 } else { *b }).collect())).collect();
+                    }
                     scenarios.push(Scenario {
                         label: format!("{}-{fam}-n{n}-s{seed}", metric.short()),
                         metric: *metric,
